@@ -189,7 +189,10 @@ def codeStdDevSq (a : List Q) : Option Q :=
 /-! ## One call of `AnalyzeData` on one record -/
 
 structure Input where
-  npre : Nat                   -- rec.presamples
+  npre : Nat                   -- rec.presamples: the RECORD's own pre-trigger length
+  cfgNpre : Nat                -- dsp.NPresamples: the processor's configured pre-trigger length.  Edge-multi
+                               -- variable-length records have `npre < cfgNpre` (and `data.length < nsamp`);
+                               -- no analysis value may depend on it (`analyze_record_only`)
   nsamp : Nat                  -- dsp.NSamples (what `SetProjectorsBasis` validates against)
   signed : Bool
   data : List Nat              -- raw uint16 samples
@@ -504,6 +507,7 @@ open P in
 def parseLine : P (String × Input × ImplOut) := do
   kw "src"; let src ← tok
   kw "npre"; let npre ← nat
+  kw "cfgnpre"; let cfgNpre ← nat
   kw "nsamp"; let nsamp ← nat
   kw "signed"; let signed ← bool
   kw "data"; let data ← list nat
@@ -527,7 +531,7 @@ def parseLine : P (String × Input × ImplOut) := do
     let hdr ← rep nat 5
     let pl ← list nat
     pure (some (hdr.map f32OfBits, pl))
-  pure (src, { npre, nsamp, signed, data, pb },
+  pure (src, { npre, cfgNpre, nsamp, signed, data, pb },
         { setErr, ptm := f64OfBits ptm, ptd := f64OfBits ptd, avg := f64OfBits avg, rms := f64OfBits rms,
           peak := f64OfBits peak, coefs := coefBits.map f64OfBits, rsd := f64OfBits rsd, summary, coefBits })
 
@@ -579,6 +583,10 @@ def runLine (ts : List String) : Verdict :=
     | some v => .viol v
     | none =>
     match analyze inp with
+    | .error .badRecord =>
+      -- presamples = 0 or no post-trigger sample (possible for edge-multi variable-length records): the
+      -- definitions do not exist (0/0), the property demands nothing, the code reports NaN
+      .ok [s!"src-{src}", "out-of-domain-record"]
     | .error e => .diff s!"model rejects the input ({repr e}) but the implementation returned values"
     | .ok m =>
       match cmpModel mr inp m o with
@@ -596,6 +604,8 @@ def runLine (ts : List String) : Verdict :=
           (if m.peak < 0 then ["all-below-baseline"] else []) ++
           (if varied && m.ms * 1000000 < 1 then ["near-constant"] else []) ++
           (if inp.npre ≤ 3 then [s!"npre-{inp.npre}"] else []) ++
+          (if inp.npre < inp.cfgNpre then ["npre<configured"] else if inp.npre > inp.cfgNpre then ["npre>configured"] else []) ++
+          (if inp.data.length != inp.nsamp then ["len!=configured"] else []) ++
           (if post.length == 1 then ["npost-1"] else []) ++
           (match m.ptd with | none => ["ptd-nan"] | some _ => []) ++
           (match m.coefs with | some c => ["proj", s!"nbases-{c.length}"] | none => []) ++
